@@ -99,10 +99,14 @@ Definition sec_to_public_pair (sec : bytes) (strict : bool) : outcome (Z * Z) :=
 Definition is_sec_compressed (sec : bytes) : bool := sec0_is sec x02 || sec0_is sec x03.
 
 (* ---- key/Key.py --------------------------------------------------------------------------- *)
-(* Key(public_pair=(x, y)): the on-curve test of Key.__init__ *)
+(* Key(public_pair=(x, y)): the on-curve test of Key.__init__, then the coordinate range test
+   0 <= x < p and 0 <= y < p (both raise InvalidPublicPairError) *)
+Definition in_field (v : Z) : bool := (0 <=? v) && (v <? p).
 Definition key_public (pr : Z * Z) : outcome (Z * Z) :=
   let '(x, y) := pr in
-  if contains_point x y then Ret (x, y) else Raise E_PUBPAIR.
+  if negb (contains_point x y) then Raise E_PUBPAIR
+  else if negb (in_field x && in_field y) then Raise E_PUBPAIR
+  else Ret (x, y).
 
 (* Key.from_sec(sec) -> (public_pair, is_compressed) *)
 Definition key_from_sec (sec : bytes) : outcome ((Z * Z) * bool) :=
